@@ -741,7 +741,10 @@ namespace hs
         return Registrar(name, sizeof(T), c,
                          [name, c](const ObjCfg& cfg, void* slot) -> Obj*
                          {
-                             T*   t = Src::template make<T>(slot, cfg);
+                             ObjCfg c2 = cfg;
+                             if (cfg.mbs_n)
+                                 c2.block_size = T::min_block_size(cfg.mbs_n);
+                             T*   t = Src::template make<T>(slot, c2);
                              auto o = new ArenaObj<T>(t);
                              o->caps   = c;
                              o->owner  = Src::owner(cfg);
